@@ -94,6 +94,9 @@ class _CircuitAttacher(object):
         except KeyError:
             return
 
+        # a stream meant for a circuit that is gone must not be handed
+        # to a circuit of Tor's choosing
+        from .torstate import TorState
         try:
             yield circuit.when_built()
             if circuit.state in ['FAILED', 'CLOSED', 'DETACHED']:
@@ -102,11 +105,12 @@ class _CircuitAttacher(object):
                         circuit=circuit,
                     )
                 )))
-                return
+                return TorState.DO_NOT_ATTACH
             d.callback(None)
             return circuit
         except Exception:
             d.errback(Failure())
+            return TorState.DO_NOT_ATTACH
 
 
 @defer.inlineCallbacks
